@@ -224,7 +224,7 @@ type retCtx struct {
 }
 
 type inliner struct {
-	litOK     bool                     // inside a function whose directly called closures are expanded
+	litOK     bool                       // inside a function whose directly called closures are expanded
 	litVars   map[types.Object]*ilHelper // local variables bound once to a function literal and only ever called
 	fset      *token.FileSet
 	files     map[*ast.File]*ilFile
